@@ -321,6 +321,19 @@ func (c09) Generate(r *core.Rng, run int, tier string) *core.History {
 		if strings.Contains(tpl, "for %d") && !strings.Contains(tpl, "m[i]") {
 			n = int64(core.Pick(r, []int{1, 10, 24, 30, 40, 62, 70})) // doubling loops: 2^n
 		}
+		if r.Bool(.4) {
+			// counts whose product with the operand's length wraps around 2^64 to a small non-negative number
+			switch {
+			case strings.Contains(tpl, "[1, 2, 3] * %d"):
+				n = 6148914691236517206 // x3 = 2^64 + 2
+			case strings.Contains(tpl, "(0:1000) * %d"):
+				n = 18446744073709552 // x1000 = 2^64 + 384
+			case strings.Contains(tpl, "(0:200) * %d"):
+				n = 92233720368547759 // x200 = 2^64 + 184
+			case strings.Contains(tpl, `"abcdefgh" * %d`):
+				n = 2305843009213693952 // x8 = 2^64
+			}
+		}
 		if strings.HasPrefix(tpl, "bs9 = ") || strings.HasPrefix(tpl, "ba9 = ") {
 			n = int64(core.Pick(r, []int{2, 9, 12, 15, 16, 40, 100})) // a LARGE operand repeated a small number of times
 		}
